@@ -3,8 +3,8 @@ package main
 // LP – processor line/keep contract.
 
 import (
-	"go/constant"
 	"fmt"
+	"go/constant"
 	"go/types"
 	"sort"
 
